@@ -6,9 +6,9 @@ Local Open Scope Z_scope.
 
 (* gd_getdata(f, s, n) returns min(n, max(0, gd_eof(f) - s)) samples, for every field and window *)
 Definition count_is_eof_statement (v : variant) : Prop :=
-  forall (A : Alg) (db : database) (f : field) (rt : ctype) (s n e : Z),
+  forall (A : Alg) (db : database) (lb : Z) (f : field) (rt : ctype) (s n e : Z),
     wf db f -> 0 <= s -> 0 <= n -> impl_eof db v f = Some e ->
-    read_count A db v rt f s n = Some (Z.min n (Z.max 0 (e - s))).
+    read_count A db v lb rt f s n = Some (Z.min n (Z.max 0 (e - s))).
 
 (* samples at and after gd_bof are made of real data only, samples below are not *)
 Definition bof_is_first_real_statement (v : variant) : Prop :=
@@ -23,22 +23,22 @@ Proof. vm_compute. intuition discriminate. Qed.
 (* a at 3 samples/frame (20 samples), b at 2 with one sample, m MULTIPLY a b:
    gd_eof = 1, yet a read of 2 samples from sample 1 returns one *)
 Lemma witness_multirate_count :
-  impl_eof db_32 v0 m_ab = Some 1 /\ read_count XAlg db_32 v0 F64 m_ab 1 2 = Some 1.
+  impl_eof db_32 v0 m_ab = Some 1 /\ read_count XAlg db_32 v0 (-1) F64 m_ab 1 2 = Some 1.
 Proof. vm_compute. auto. Qed.
 
 (* p PHASE a 10, q PHASE p -8 over 4 samples of a: gd_eof(q) = 8 and gd_bof(q) = 8,
    yet q has exactly two samples, 0 and 1, and both are real data *)
 Lemma witness_nested_phase :
-  impl_eof db_a4 v0 q_nested = Some 8 /\ read_count XAlg db_a4 v0 F64 q_nested 0 10 = Some 2 /\
+  impl_eof db_a4 v0 q_nested = Some 8 /\ read_count XAlg db_a4 v0 (-1) F64 q_nested 0 10 = Some 2 /\
   impl_bof db_a4 v0 q_nested = 8 /\ is_real db_a4 q_nested 0 = true.
 Proof. vm_compute. auto. Qed.
 
 Lemma count_statement_refuted : ~ count_is_eof_statement v0.
 Proof.
   intro H. destruct witness_nested_phase as (He & Hc & _).
-  pose proof (H XAlg db_a4 q_nested F64 0 10 8 wf_q ltac:(lia) ltac:(lia) He) as H0.
+  pose proof (H XAlg db_a4 (-1) q_nested F64 0 10 8 wf_q ltac:(lia) ltac:(lia) He) as H0.
   assert (E : Some 2 = Some (Z.min 10 (Z.max 0 (8 - 0)))).
-  { transitivity (read_count XAlg db_a4 v0 F64 q_nested 0 10); [symmetry; exact Hc|exact H0]. }
+  { transitivity (read_count XAlg db_a4 v0 (-1) F64 q_nested 0 10); [symmetry; exact Hc|exact H0]. }
   clear - E. vm_compute in E. discriminate E.
 Qed.
 
@@ -50,24 +50,24 @@ Qed.
 
 (* hypotheses of the partial theorems are satisfiable: an aligned two-rate read *)
 Lemma count_example :
-  wf db_ab m_ab /\ covered XAlg db_ab v0 F64 m_ab 2 40 /\ noclamp db_ab m_ab /\
-  impl_eof db_ab v0 m_ab = Some 8 /\ read_count XAlg db_ab v0 F64 m_ab 2 40 = Some 6.
+  wf db_ab m_ab /\ covered XAlg db_ab v0 (-1) F64 m_ab 2 40 /\ noclamp db_ab m_ab /\
+  impl_eof db_ab v0 m_ab = Some 8 /\ read_count XAlg db_ab v0 (-1) F64 m_ab 2 40 = Some 6.
 Proof. vm_compute. intuition discriminate. Qed.
 
 (* the same witnesses with the proposed repairs (C01-2, C16-1, C16-2) *)
 Lemma witness_repaired :
-  impl_eof db_32 v1 m_ab = Some 1 /\ read_count XAlg db_32 v1 F64 m_ab 1 2 = Some 0 /\
-  impl_eof db_a4 v1 q_nested = Some 2 /\ read_count XAlg db_a4 v1 F64 q_nested 0 10 = Some 2 /\
+  impl_eof db_32 v1 m_ab = Some 1 /\ read_count XAlg db_32 v1 (-1) F64 m_ab 1 2 = Some 0 /\
+  impl_eof db_a4 v1 q_nested = Some 2 /\ read_count XAlg db_a4 v1 (-1) F64 q_nested 0 10 = Some 2 /\
   impl_bof db_a4 v1 q_nested = 0.
 Proof. vm_compute. auto. Qed.
 
 (* with the repairs the count statement holds at full strength for fields without MPLEX *)
-Lemma count_is_eof_repaired (A : Alg) db v f rt s n e :
+Lemma count_is_eof_repaired (A : Alg) db v lb f rt s n e :
   read_repaired v -> v_clamp v = true -> wf db f -> mplex_free f -> 0 <= s -> 0 <= n ->
   impl_eof db v f = Some e ->
-  read_count A db v rt f s n = Some (Z.min n (Z.max 0 (e - s))).
+  read_count A db v lb rt f s n = Some (Z.min n (Z.max 0 (e - s))).
 Proof.
-  intros Hv Hc Hw Hm Hs Hn He. apply (count_is_eof db v A f rt s n e); auto.
+  intros Hv Hc Hw Hm Hs Hn He. apply (count_is_eof db v lb A f rt s n e); auto.
   unfold covered. apply uncovered_repaired; auto.
 Qed.
 
@@ -88,29 +88,29 @@ Qed.
 
 (* MPLEX over a forward-shifted PHASE: the re-seek after the look-back fails *)
 Lemma witness_mplex_reseek :
-  impl_eof db_mx vc x_mx = Some 14 /\ read_count XAlg db_mx vc F64 x_mx 0 1 = None /\
-  uncovered XAlg db_mx vc F64 x_mx 0 1 = [TMplexSeek].
+  impl_eof db_mx vc x_mx = Some 14 /\ read_count XAlg db_mx vc (-1) F64 x_mx 0 1 = None /\
+  uncovered XAlg db_mx vc (-1) F64 x_mx 0 1 = [TMplexSeek].
 Proof. vm_compute. auto. Qed.
 
 Lemma count_statement_refuted_current : ~ count_is_eof_statement vc.
 Proof.
   intro H. destruct witness_mplex_reseek as (He & Hc & _).
   assert (Hw : wf db_mx x_mx) by (vm_compute; intuition discriminate).
-  pose proof (H XAlg db_mx x_mx F64 0 1 14 Hw ltac:(lia) ltac:(lia) He) as H0.
+  pose proof (H XAlg db_mx (-1) x_mx F64 0 1 14 Hw ltac:(lia) ltac:(lia) He) as H0.
   rewrite Hc in H0. discriminate.
 Qed.
 
 (* the count statement on the frozen tree: every MPLEX-free field and window, the
    only proviso being the padding clause of C01 (which concerns values, not counts) *)
-Lemma count_is_eof_current (A : Alg) db v f rt s n e :
+Lemma count_is_eof_current (A : Alg) db v lb f rt s n e :
   v_align v = true -> v_alloc0 v = true -> v_clamp v = true ->
   wf db f -> mplex_free f -> 0 <= s -> 0 <= n ->
-  ~ In TRawPad (uncovered A db v rt f s n) ->
+  ~ In TRawPad (uncovered A db v lb rt f s n) ->
   impl_eof db v f = Some e ->
-  read_count A db v rt f s n = Some (Z.min n (Z.max 0 (e - s))).
+  read_count A db v lb rt f s n = Some (Z.min n (Z.max 0 (e - s))).
 Proof.
-  intros Ha Hz Hc Hw Hm Hs Hn Hp He. apply (count_is_eof db v A f rt s n e); auto.
-  unfold covered. pose proof (uncovered_current A db v f Ha Hz Hm rt s n) as H.
-  destruct (uncovered A db v rt f s n) as [|t l]; [reflexivity|].
+  intros Ha Hz Hc Hw Hm Hs Hn Hp He. apply (count_is_eof db v lb A f rt s n e); auto.
+  unfold covered. pose proof (uncovered_current A db v lb f Ha Hz Hm rt s n) as H.
+  destruct (uncovered A db v lb rt f s n) as [|t l]; [reflexivity|].
   exfalso. apply Hp. rewrite (H t (or_introl eq_refl)). left. reflexivity.
 Qed.
